@@ -226,7 +226,7 @@ namespace vc
     void* LogAlloc::alloc(char kind, std::size_t n, std::size_t size, std::size_t al)
     {
         void* p  = nullptr;
-        int   id = next_id_++;
+        int   id = next_id()++;
         char  ks[2] = {kind, 0};
         try
         {
@@ -342,6 +342,13 @@ namespace vc
         // commands that do not depend on the element type
         bool generic_cmd(Ctx& cx, const Cmd& c)
         {
+            if (c.op == "ualloc")
+            {
+                // the following creating commands use the k-th allocator OBJECT (same backend): what is
+                // created with one must come back to that one, whatever moves and swaps happen in between
+                cx.alloc = cx.allocs[c.arg(0, 0) != 0 ? 1 : 0];
+                return true;
+            }
             if (c.op == "use")
             {
                 // a plain valid request on the allocator (C20 "allocator remains usable")
@@ -448,9 +455,11 @@ namespace vc
                 return;
             }
             {
-                LogAlloc alloc(be.get());
+                LogAlloc alloc(be.get()), alloc2(be.get());
                 Ctx      cx;
-                cx.alloc = &alloc;
+                cx.alloc     = &alloc;
+                cx.allocs[0] = &alloc;
+                cx.allocs[1] = &alloc2;
                 for (auto& c : x.cmds)
                 {
                     if (!generic_cmd(cx, c) && !typed->cmd(cx, c))
